@@ -100,3 +100,20 @@ Theorem C03_checked :
          LALR_LA (gi_rules gi) (t_aut t) q (r, length (rhs_of (gi_rules gi) r)) a.
 Proof. exact WfGrammar.checked_lookaheads. Qed.
 Print Assumptions C03_checked.
+
+From YG Require Import LRBase CompleteDriver LR0Build Resolve Pipeline PipelineRun Front WfGrammar YParser EndToEnd FrontWf ParsedNames EndToEndWf.
+Close Scope Z_scope.
+Open Scope nat_scope.
+
+(* from the bytes of the grammar file: the lookahead sets computed for the grammar object built from the text are exactly the LALR(1) sets *)
+Theorem C03_from_the_text :
+  forall (s : list Ascii.ascii) (b : built) (t : tables),
+         generate_text s = GOk b t ->
+         forall q r a : nat,
+         q < length (t_aut t) ->
+         r <> 0 ->
+         In (r, length (rhs_of (gi_rules (b_gi b)) r)) (items (st (t_aut t) q)) ->
+         In a (la_lookup (t_la t) q r) <->
+         C03Assembly.LALR_LA (gi_rules (b_gi b)) (t_aut t) q (r, length (rhs_of (gi_rules (b_gi b)) r)) a.
+Proof. exact EndToEndWf.text_lookaheads. Qed.
+Print Assumptions C03_from_the_text.
